@@ -1,4 +1,5 @@
 import CwPlus.Props.C07
+import CwPlus.Props.Cw1SubkeysMigrate
 /-!
 # C17 — cw1: the admin set changes only by admins while mutable; freezing is permanent
 
@@ -724,6 +725,39 @@ theorem Sk.no_admins_forever {s : Cw1Subkeys.State} (hn : s.cfg.admins = [])
     obtain ⟨i1, i2⟩ := ih (s := Cw1Subkeys.step s op.1 op.2.1 op.2.2) (by rw [h1]; exact hn)
     exact ⟨i1.trans h1, i2.trans h2⟩
 
+/-- One transaction of a mixed history (execute message or migration) leaves a frozen admin configuration alone. -/
+theorem Sk.opStep_frozen {s : Cw1Subkeys.State} (hf : s.cfg.mutable = false) (op : Cw1SubkeysMigrate.Op) :
+    (Cw1SubkeysMigrate.opStep s op).cfg = s.cfg := by
+  cases op with
+  | exec blk snd m => exact Sk.step_frozen hf blk snd m
+  | migrate =>
+    simp only [Cw1SubkeysMigrate.opStep]
+    split
+    · rename_i s' hm; exact (Cw1SubkeysMigrate.migrate_frame hm).1
+    · rfl
+
+/-- C17 (subkeys), freezing is permanent over **mixed** histories too: no interleaving of execute messages by anybody
+and contract migrations changes the admin list or the flag of a frozen contract. -/
+theorem Sk.frozen_forever_with_migrations {s : Cw1Subkeys.State} (hf : s.cfg.mutable = false)
+    (ops : List Cw1SubkeysMigrate.Op) : (Cw1SubkeysMigrate.run s ops).cfg = s.cfg := by
+  induction ops generalizing s with
+  | nil => rfl
+  | cons op rest ih =>
+    simp only [Cw1SubkeysMigrate.run, List.foldl_cons]
+    have h1 := Sk.opStep_frozen hf op
+    have := ih (s := Cw1SubkeysMigrate.opStep s op) (by rw [h1]; exact hf)
+    simp only [Cw1SubkeysMigrate.run] at this
+    rw [this, h1]
+
+/-- A mixed history without migrations is an ordinary history. -/
+theorem Sk.migrate_run_exec (s : Cw1Subkeys.State) (ops : List (Block × Addr × Cw1Subkeys.Msg)) :
+    Cw1SubkeysMigrate.run s (ops.map fun op => .exec op.1 op.2.1 op.2.2) = Sk.run s ops := by
+  induction ops generalizing s with
+  | nil => rfl
+  | cons op rest ih =>
+    simp only [Cw1SubkeysMigrate.run, Sk.run, List.map_cons, List.foldl_cons, Cw1SubkeysMigrate.opStep] at ih ⊢
+    exact ih _
+
 /-! ## non-vacuity -/
 
 def wl0 : Cw1Whitelist.State := ⟨["a", "b"], true⟩
@@ -761,5 +795,10 @@ example : (Sk.run exState [(blk50, "admin", .updateAdmins []), (blk50, "admin", 
     (blk50, "admin", .setPermissions ⟨true, "x"⟩ ⟨true, true, true, true⟩)]) = { exState with cfg := ⟨[], true⟩ } := by decide
 example : Wl.run ⟨["a"], false⟩ [(blk, "a", .updateAdmins [⟨true, "c"⟩]), (blk, "a", .freeze)] = ⟨["a"], false⟩ :=
   Wl.immutable_instantiation (m0 := ⟨[⟨true, "a"⟩], false⟩) rfl rfl _
+
+/-- frozen, then a migration from an older version and an update attempt: the configuration stays -/
+example : (Cw1SubkeysMigrate.run { exState with cfg := ⟨["admin"], false⟩, cw2 := some ⟨"x", some ⟨1, 0, 0, none⟩⟩ }
+    [.migrate, .exec blk50 "admin" (.updateAdmins [⟨true, "sub"⟩])]).cfg = ⟨["admin"], false⟩ :=
+  Sk.frozen_forever_with_migrations rfl _
 
 end CwPlus.Props.C17
